@@ -37,6 +37,8 @@ CONSTANTS
     NegIgnored,  \* sensitivity: a negated match does not exclude (WRONG rule)
     NoHostLiteralCidr, \* sensitivity: an IP-literal host is not an address for CIDR patterns (WRONG)
     FallbackAlways, \* sensitivity: plain-name lookup merged in always (WRONG)
+    IndexAliased, \* sensitivity: a lookup appends what it found to the stored index entry (WRONG)
+    MaxHist,      \* hist / akhist: lookups made one after the other on ONE loaded object
     DropPortRevoked,\* sensitivity: the fallback forgets [host]:port revocations (pre-repair rule)
     AnyFromSuffices,\* sensitivity: one matching from= is enough (WRONG)
     CaseFold     \* TRUE = OpenSSH (folds case); FALSE = what asyncssh does
@@ -261,6 +263,35 @@ KHResult(file, q) ==
 
 Purge(file) == SelectSeq(file, LAMBDA ln : Keys[ln[3]] # "D")
 
+(* ---- a HISTORY of lookups on one loaded object.  The object is the index built at  *)
+(* load time: exact strings -> lines, and the pattern lines.  ext records what has    *)
+(* been appended to index entries since (<<string, lines>>): nothing, under the rule. *)
+ExactBy(file, s) == SelIdx(LAMBDA i : ExactHit(HFOf(file[i]), s), Len(file))
+RECURSIVE ExtOf(_, _)
+ExtOf(ext, s) == IF ext = <<>> THEN <<>>
+                 ELSE (IF Head(ext)[1] = s THEN Head(ext)[2] ELSE <<>>) \o ExtOf(Tail(ext), s)
+Stored(file, ext, s) == IF s = <<>> THEN <<>> ELSE ExactBy(file, s) \o ExtOf(ext, s)
+ResOf(file, hits) == [host |-> KeysOf(file, hits, ""), ca |-> KeysOf(file, hits, "cert-authority"),
+                      rev |-> KeysOf(file, hits, "revoked")]
+LookupH(file, q, wp, ext) ==
+    LET hs   == HostS(q, wp)
+        base == Stored(file, ext, hs)
+        add  == (IF AddrS(q, wp) = hs THEN base ELSE Stored(file, ext, AddrS(q, wp))) \o
+                SelIdx(LAMBDA i : PatHit(HFOf(file[i]), q, wp), Len(file))
+    IN  [r   |-> ResOf(file, base \o add),
+         ext |-> IF IndexAliased /\ ExactBy(file, hs) # <<>> THEN Append(ext, <<hs, add>>) ELSE ext]
+MatchH(file, q, ext) ==
+    IF q[3] = 0 THEN LookupH(file, q, FALSE, ext)
+    ELSE LET l1 == LookupH(file, q, TRUE, ext)
+         IN  IF l1.r.host # <<>> \/ l1.r.ca # <<>> THEN l1
+             ELSE LET l2 == LookupH(file, q, FALSE, l1.ext)
+                  IN  [r |-> [l2.r EXCEPT !.rev = l2.r.rev \o l1.r.rev], ext |-> l2.ext]
+RECURSIVE HistRun(_, _, _)
+HistRun(file, qs, ext) ==      \* the results of the lookups qs, made in this order
+    IF qs = <<>> THEN <<>>
+    ELSE LET m == MatchH(file, QMenu[Head(qs)], ext)
+         IN  <<m.r>> \o HistRun(file, Tail(qs), m.ext)
+
 -----------------------------------------------------------------------------
 (* 3. authorized_keys: the option tokenizer (misc.py OptionsParser)          *)
 
@@ -428,6 +459,8 @@ TokCases == [s : Strs(TokAlpha, 0, MaxTok)]
 
 OptSeqs  == UNION {[1..n -> OptSel] : n \in 0..MaxOpts}
 Entries  == {1, 2} \X OptSeqs
+Hists(S) == {h \in UNION {[1..n -> S] : n \in 2..MaxHist} : \A i \in 1..(Len(h) - 1) : h[i] # h[i + 1]}
+HistCases == [file : UNION {[1..n -> LineIdx] : n \in 1..MaxLines}, qs : Hists(QSel)]
 AKCases  == [file : UNION {[1..n -> Entries] : n \in 1..MaxEntries}, q : AQMenu]
 RECURSIVE SeqHash(_)
 SeqHash(s) == IF s = <<>> THEN 3 ELSE (SeqHash(Tail(s)) * 17 + Head(s)) % 100003
@@ -437,12 +470,20 @@ AKHash(f) == IF f = <<>> THEN 5
 QHash(q) == q.key * 2 + q.host * 3 + q.addr * 5 + q.princ * 7 + (IF q.ca THEN 11 ELSE 0)
 
 Keep(h) == h % SampleMod = SampleRem
+AQSel == {q \in AQMenu : q.princ \in {1, 3} /\ ~q.ca}       \* akhist: 8 queries
+AKHistCases == [file : UNION {[1..n -> Entries] : n \in 1..MaxEntries}, qs : Hists(AQSel)]
+RECURSIVE QsHash(_)
+QsHash(qs) == IF qs = <<>> THEN 1 ELSE (QsHash(Tail(qs)) * 37 + Head(qs)) % 100003
+RECURSIVE AQsHash(_)
+AQsHash(qs) == IF qs = <<>> THEN 1 ELSE (AQsHash(Tail(qs)) * 37 + QHash(Head(qs))) % 100003
 
 Init ==
     \/ Mode = "pat" /\ c \in PatCases
     \/ Mode = "kh"  /\ c \in KHCases /\ Keep(FileHash(c.file) + c.q * 13)
     \/ Mode = "tok" /\ c \in TokCases
     \/ Mode = "ak"  /\ c \in AKCases /\ Keep(AKHash(c.file) + QHash(c.q))
+    \/ Mode = "hist" /\ c \in HistCases /\ Keep(FileHash(c.file) + QsHash(c.qs))
+    \/ Mode = "akhist" /\ c \in AKHistCases /\ Keep(AKHash(c.file) + AQsHash(c.qs))
 Next == UNCHANGED c
 Spec == Init /\ [][Next]_vars
 
@@ -498,6 +539,11 @@ LiteralHostIsAddress ==   \* an IP-literal host without a peer address is looked
                       {r.rev[i] : i \in 1..Len(r.rev)}>>
         IN  (q[1].k = "ip" /\ q[2] < 0) =>
                 S(KHResult(c.file, q)) = S(KHResult(c.file, <<q[1], q[1].x, q[3]>>))
+
+HistoryFree ==            \* every lookup on a used object gives what a freshly loaded object gives
+    Mode = "hist" =>
+        LET h == HistRun(c.file, c.qs, <<>>)
+        IN  \A i \in 1..Len(c.qs) : h[i] = KHResult(c.file, QMenu[c.qs[i]])
 
 MarkerPartition ==        \* every selected line lands in exactly the list its marker names
     Mode = "kh" =>
@@ -576,6 +622,19 @@ EmitCase ==
               [] Mode = "kh"  -> EmitKH
               [] Mode = "tok" -> EmitTok
               [] Mode = "ak"  -> EmitAK
+              [] Mode = "hist" ->
+                   PrintT(<<"hist", c.file, c.qs,
+                            [i \in 1..Len(c.qs) |->
+                               LET r == KHResult(c.file, QMenu[c.qs[i]]) IN <<r.host, r.ca, r.rev>>]>>)
+              [] Mode = "akhist" ->
+                   PrintT(<<"akhist", c.file,
+                            [i \in 1..Len(c.qs) |->
+                               LET q == c.qs[i] r == AKResult(c.file, q)
+                               IN  <<<<q.key, q.host, q.addr, q.princ, B2N(q.ca)>>, r,
+                                     IF r = 0 THEN <<>>
+                                     ELSE <<CmdOf(c.file[r]), EnvOf(c.file[r]), PermitOf(c.file[r]),
+                                            FlagsOf(c.file[r]), Len(OptsNamed(c.file[r], "from")),
+                                            Len(OptsNamed(c.file[r], "principals"))>>>>]>>)
 
 (* the menus, printed once so that the harness builds exactly these texts *)
 MenuDump ==
